@@ -452,4 +452,64 @@ theorem after_two_flights (P : Prims) (L : SealLaws P) (cls : CipherClass) (ver 
     (pa _ _ _).2]
   exact ⟨trivial, trivial⟩
 
+-- ------------------------------------------------------------------ traffic entries → builder records
+/-- `Session.decrypt()`'s view of an `application_traffic` entry: data, capture times of the carriers, direction
+    (the lambda inside `Pipeline.connOut`, `ts id = (info id).ts`) -/
+def toRec (ts : Nat → Nat) (e : Session.Entry) : TcpOut.Rec := ⟨e.data, e.record.carriers.map ts, e.fromServer⟩
+
+/-- the sender's application plaintext of one direction, concatenated in order -/
+def plainOf (dir : Bool) (evs : List Ev) : Bytes := (evs.filter (fun e => evSrv e == dir)).flatMap evPt
+
+theorem dirBytes_entries (dir : Bool) (ts : Nat → Nat) (evs : List Ev) (recs : List (Session.Rec × Bool))
+    (hl : recs.length = evs.length) :
+    Props.C06.dirBytes dir
+      ((List.zipWith (fun e (r : Session.Rec × Bool) => (⟨some (evPt e), r.1, evSrv e, true⟩ : Session.Entry)) evs recs).map
+        (toRec ts)) = plainOf dir evs := by
+  induction evs generalizing recs with
+  | nil => simp [Props.C06.dirBytes, plainOf]
+  | cons e es ih =>
+    cases recs with
+    | nil => simp at hl
+    | cons r rs =>
+      have := ih rs (by simpa using hl)
+      simp only [Props.C06.dirBytes, plainOf, List.zipWith_cons_cons, List.map_cons, List.filter_cons,
+        List.map_zipWith, toRec] at this ⊢
+      by_cases h : evSrv e = dir
+      · simp only [toRec, h, beq_self_eq_true, if_true, List.flatMap_cons, this, TcpOut.Rec.bytes, Option.getD_some]
+      · have h' : (evSrv e == dir) = false := by simpa using h
+        simp only [toRec, h', Bool.false_eq_true, if_false, this]
+
+theorem zipWith_entries_record (evs : List Ev) (recs : List (Session.Rec × Bool)) :
+    ∀ en ∈ List.zipWith (fun e (r : Session.Rec × Bool) => (⟨some (evPt e), r.1, evSrv e, true⟩ : Session.Entry)) evs recs,
+      ∃ r ∈ recs, en.record = r.1 := by
+  induction evs generalizing recs with
+  | nil => simp
+  | cons e es ih =>
+    cases recs with
+    | nil => simp
+    | cons r rs =>
+      intro en hen
+      simp only [List.zipWith_cons_cons, List.mem_cons] at hen
+      rcases hen with rfl | hen
+      · exact ⟨r, by simp, rfl⟩
+      · obtain ⟨r', hr', h⟩ := ih rs en hen
+        exact ⟨r', by simp [hr'], h⟩
+
+theorem wireRecs_carriers (ws : List Wire) (cars : List (List Nat)) :
+    ∀ r ∈ wireRecs ws cars, r.1.carriers ∈ cars := by
+  induction ws generalizing cars with
+  | nil => simp [wireRecs]
+  | cons w ws ih =>
+    cases w with
+    | switch srv => simp only [wireRecs]; exact ih cars
+    | record srv raw =>
+      cases cars with
+      | nil => simp [wireRecs]
+      | cons c cs =>
+        intro r hr
+        simp only [wireRecs, List.mem_cons] at hr ⊢
+        rcases hr with rfl | hr
+        · exact Or.inl rfl
+        · exact Or.inr (ih cs r hr)
+
 end TLX.Lemmas.Pipeline
